@@ -20,6 +20,8 @@ pub struct SupOpts {
     pub isolate_cpu_s: f64,
     pub wall_s: f64,
     pub opts: Vec<String>,
+    /// (front-end, innermost harper frame) pairs already known to spin: not re-isolated
+    pub assume_hangs: Vec<(String, String)>,
 }
 
 struct Slot {
@@ -188,7 +190,7 @@ pub fn run(o: SupOpts) -> i32 {
     let mut sup = Report::default();
     let mut deaths: BTreeMap<String, u64> = BTreeMap::new();
     let mut watchdog = false;
-    let mut confirmed_hangs: std::collections::HashSet<(String, String)> = Default::default();
+    let mut confirmed_hangs: std::collections::HashSet<(String, String)> = o.assume_hangs.iter().cloned().collect();
 
     loop {
         let mut live = 0;
